@@ -300,6 +300,19 @@ def run(ctx: common.Ctx):
   nc = ctx.n(3, 36)
   interp_fns = {'safe': None, 'const': vi.vectorize_vertical_interpolation(vi.interp),
                 'linear': vi.vectorize_vertical_interpolation(vi.linear_interp_with_linear_extrap)}
+  def batched_columns(fname, ob, fb, nout, spb, inp0, mk, tag):
+    """Every column of a leaf with leading batch dimensions [..., level, x, y] against the model (per column)."""
+    want_shape = fb.shape[:-3] + (nout,) + fb.shape[-2:]
+    if ob.shape != want_shape:
+      ctx.corr_mismatch(f'{fname}[batched leaf]{tag}', dict(inp0, leaf_shape=list(fb.shape)), list(ob.shape),
+                        list(want_shape), 'shape')
+      return
+    spf = np.broadcast_to(spb, fb.shape[:-3] + (1,) + fb.shape[-2:])
+    for (idx, fcol), (_, ocol), (_, spc) in zip(dinoutil.columns(fb, -3), dinoutil.columns(ob, -3),
+                                                dinoutil.columns(spf, -3)):
+      add(mk(fcol, spc[0]), f'{fname}[batched leaf]{tag}',
+          dict(inp0, leaf_shape=list(fb.shape), column=list(idx), sp=float(spc[0]), f=fcol.tolist()), ocol, 'opt')
+
   for ki in range(nc):
     ns = int(rng.choice([2, 3, 5, 8, 12]))
     b, bkind = dinoutil.random_boundaries(rng, ns)
@@ -312,13 +325,20 @@ def run(ctx: common.Ctx):
     sp = rng.uniform(500.0, 1050.0, (1, X, Y))
     kindf = ['safe', 'const', 'linear'][ki % 3]
     kw = {} if kindf == 'safe' else dict(interpolate_fn=interp_fns[kindf])
+    # leading batch dimensions (times / members) of the batched leaves; the leading size differs from every number of
+    # levels of the case, so that no axis can be mistaken for the level axis (third from last)
+    lead = [(2,), (3, 2), (4,), (2, 3)][(ki + ctx.seed) % 4]
+    while lead[0] in (npc, ns):
+      lead = (lead[0] + 1,) + lead[1:]
+    ctx.dist[f'coords:batched-leading-dims={len(lead)}'] += 1
     ctx.dist[f'coords:{kindf}'] += 1
     ctx.case(('coords', b.tobytes(), pcent.tobytes(), sp.tobytes()), nontrivial=True,
              sample=dict(sigma_boundaries=b.tolist(), pressure=pcent.tolist(), sp=sp.ravel().tolist()))
     inp0 = dict(sigma_boundaries=b.tolist(), pressure=pcent.tolist(), interpolate_fn=kindf)
     with ctx.impl('corr-exception', inp0, 'pressure/sigma regridding raised'):
       fs = rng.standard_normal((ns, X, Y))
-      fields = {'u': fs, 'scalar': 3.0}
+      fsb = rng.standard_normal(lead + (ns, X, Y))       # leading batch dimensions [..., level, x, y]
+      fields = {'u': fs, 'ub': fsb, 'scalar': 3.0}
       out = vi.interp_sigma_to_pressure(fields, pcoords, sigma, A(sp), **kw)
       ctx.corr_exact('interp_sigma_to_pressure[scalar leaf]', inp0, float(out['scalar']), 3.0)
       o = np.asarray(out['u'])
@@ -326,9 +346,15 @@ def run(ctx: common.Ctx):
                                                   dinoutil.columns(sp, 0)):
         add(f'interp F s2p {kindf} {fvec(sigma.centers)} {fvec(pcent)} {fbits(spc[0])} {fvec(fcol)}',
             f'interp_sigma_to_pressure[{kindf}]', dict(inp0, sp=float(spc[0]), f=fcol.tolist()), ocol, 'opt')
+      batched_columns('interp_sigma_to_pressure', np.asarray(out['ub']), fsb, npc, sp, inp0,
+                      lambda fcol, spv: f'interp F s2p {kindf} {fvec(sigma.centers)} {fvec(pcent)} {fbits(spv)} {fvec(fcol)}',
+                      f'[{kindf}]')
       fpz = rng.standard_normal((npc, X, Y))
+      fpzb = rng.standard_normal(lead + (npc, X, Y))     # leading batch dimensions: on the pressure levels as well
       other = rng.standard_normal((npc + 1, X, Y))     # not on pressure levels: must pass through
-      out = vi.interp_pressure_to_sigma({'t': fpz, 'other': other, 'sp2d': sp[0]}, pcoords, sigma, A(sp), **kw)
+      otherb = rng.standard_normal((npc,) + (npc + 2, X, Y))   # level axis (third from last) has another size: passes
+      out = vi.interp_pressure_to_sigma({'t': fpz, 'tb': fpzb, 'other': other, 'sp2d': sp[0]},
+                                        pcoords, sigma, A(sp), **kw)
       ctx.corr_exact('interp_pressure_to_sigma[non-level leaves pass through]', inp0,
                      bool(np.array_equal(np.asarray(out['other']), other) and
                           np.array_equal(np.asarray(out['sp2d']), sp[0])), True)
@@ -337,6 +363,14 @@ def run(ctx: common.Ctx):
                                                   dinoutil.columns(sp, 0)):
         add(f'interp F p2s {kindf} {fvec(pcent)} {fvec(sigma.centers)} {fbits(spc[0])} {fvec(fcol)}',
             f'interp_pressure_to_sigma[{kindf}]', dict(inp0, sp=float(spc[0]), f=fcol.tolist()), ocol, 'opt')
+      batched_columns('interp_pressure_to_sigma', np.asarray(out['tb']), fpzb, ns, sp, inp0,
+                      lambda fcol, spv: f'interp F p2s {kindf} {fvec(pcent)} {fvec(sigma.centers)} {fbits(spv)} {fvec(fcol)}',
+                      f'[{kindf}]')
+      with ctx.impl('corr-exception', dict(inp0, leaf_shape=list(otherb.shape)),
+                    'interp_pressure_to_sigma raised on a leaf whose level axis (third from last) is not on the pressure levels'):
+        ob_ = np.asarray(vi.interp_pressure_to_sigma({'otherb': otherb}, pcoords, sigma, A(sp), **kw)['otherb'])
+        ctx.corr_exact('interp_pressure_to_sigma[batched non-level leaf passes through]',
+                       dict(inp0, leaf_shape=list(otherb.shape)), bool(np.array_equal(ob_, otherb)), True)
       # hybrid -> sigma
       nh = int(rng.choice([2, 3, 6]))
       pb = np.concatenate([[0.0], np.cumsum(rng.uniform(0.5, 1.5, nh))])
@@ -351,7 +385,13 @@ def run(ctx: common.Ctx):
       if not all((np.diff(hyb.get_sigma_centers(v)) > 0).all() for v in sph.ravel()):
         ctx.dist['hybrid:source-not-increasing-skipped'] += 1
         continue
-      oh = np.asarray(vi.interp_hybrid_to_sigma(fh, hyb, sigma, A(sph[0])))
+      leadh = lead if lead[0] != nh else (lead[0] + 3,) + lead[1:]
+      fhb = rng.standard_normal(leadh + (nh, X, Y))
+      outh = vi.interp_hybrid_to_sigma({'a': fh, 'ab': fhb}, hyb, sigma, A(sph[0]))
+      oh = np.asarray(outh['a'])
+      batched_columns('interp_hybrid_to_sigma', np.asarray(outh['ab']), fhb, ns, sph, dict(inp0, a=ab.tolist(), b=bb.tolist()),
+                      lambda fcol, spv: f'interp F h2s {fvec(ab)} {fvec(bb)} {fvec(sigma.centers)} {fbits(spv)} {fvec(fcol)}',
+                      '')
       add(f'interp F hcent {fvec(ab)} {fvec(bb)} {fbits(sph[0, 0, 0])}', 'HybridCoordinates.get_sigma_centers',
           dict(a=ab.tolist(), b=bb.tolist(), sp=float(sph[0, 0, 0])), hyb.get_sigma_centers(sph[0, 0, 0]))
       for (idx, fcol), (_, ocol), (_, spc) in zip(dinoutil.columns(fh, 0), dinoutil.columns(oh, 0),
@@ -406,14 +446,31 @@ def run(ctx: common.Ctx):
     return sh.Grid(longitude_nodes=t[0], latitude_nodes=t[1], latitude_spacing=t[2], longitude_offset=t[3])
 
   nh_cases = ctx.n(4, 24)
+  horiz_pairs = []
   for hi_ in range(nh_cases):
     ts = grid_table[int(rng.integers(0, len(grid_table)))] if hi_ >= 2 else grid_table[hi_]
     tt = grid_table[int(rng.integers(0, len(grid_table)))] if hi_ >= 2 else grid_table[1 - hi_]
     if hi_ % 3 == 2:
       tt = ts
+    horiz_pairs.append((ts, tt, None))
+  # SEQUENCES of regridders between grids that have the same node counts and latitude spacing and differ only in the
+  # longitude offset (by 1.25 / 0.75 longitude cells, so the nearest indices really differ), used one after the other
+  # in one process, in both orders: rotated pair first then the equal pair, and the equal pair first then the rotated
+  # pair.  The index table of every regridder is a function of ITS OWN two grids only (model: brute-force haversine
+  # argmin), whatever was regridded before.
+  (lo1, la1, sp1), (lo2, la2, sp2) = [[(9, 5, 'gauss'), (7, 4, 'equiangular')], [(7, 5, 'gauss'), (9, 4, 'equiangular')],
+                                      [(9, 4, 'gauss'), (7, 5, 'equiangular')]][ctx.seed % 3]
+  pl1, ro1 = (lo1, la1, sp1, 0.0), (lo1, la1, sp1, 1.25 * 2 * np.pi / lo1)
+  pl2, ro2 = (lo2, la2, sp2, 0.0), (lo2, la2, sp2, 0.75 * 2 * np.pi / lo2)
+  horiz_pairs += [(pl1, ro1, 'rotated-first'), (pl1, pl1, 'equal-after-rotated'),
+                  (ro2, ro2, 'equal-first'), (ro2, pl2, 'rotated-after-equal')]
+  for ts, tt, seq in horiz_pairs:
     gs, gt = mkgrid(ts), mkgrid(tt)
     field = rng.standard_normal(gs.nodal_shape)
     inp0 = dict(source=list(ts), target=list(tt))
+    if seq is not None:
+      inp0['sequence'] = seq
+      ctx.dist['horizontal:offset-sequence:' + seq] += 1
     ctx.dist['horizontal:' + ('same' if ts == tt else 'different')] += 1
     ctx.case(('horiz', ts, tt, field.tobytes()), nontrivial=True, sample=inp0)
     with ctx.impl('corr-exception', inp0, 'horizontal regridder raised'):
@@ -728,6 +785,90 @@ def run(ctx: common.Ctx):
                  dict(inp, back=back.tolist(), col=col.tolist()))
       ctx.expect(bool(np.isnan(back[outr]).all()), 'roundtrip-missing',
                  'sigma->pressure->sigma returns values beyond one cell of the pressure range', inp)
+      # the same on leaves with leading batch dimensions [..., level, x, y] (times / members; the leading size differs
+      # from both numbers of levels) and a batch-dependent surface pressure [..., 1, x, y]: affine columns (another
+      # line per batch entry and column) are exact, and every batch entry equals the result of regridding that
+      # entry alone as a 3-D field (entry 0 is the 3-D case above)
+      for lead in [(2,), (3, 2)][:1 if ctx.quick and ri else 2]:
+        while lead[0] in (ns, npc):
+          lead = (lead[0] + 2,) + lead[1:]
+        i0 = (0,) * len(lead)
+        spb = rng.uniform(sp.min(), sp.max(), lead + (1, X, Y))   # the pressure levels stay inside the padded sigma range
+        ab_, sb_ = rng.standard_normal((2,) + lead + (1, X, Y))
+        spb[i0], ab_[i0], sb_[i0] = sp, a0, s0
+        colb = ab_ + sb_ * cen[:, None, None]
+        binp = dict(inp, leaf_shape=list(colb.shape), sp_shape=list(spb.shape), sp=spb.ravel().tolist(),
+                    a=ab_.ravel().tolist(), s=sb_.ravel().tolist())
+        ctx.case(('roundtrip-batched', lead, b.tobytes(), pcent.tobytes(), spb.tobytes()), nontrivial=True,
+                 branch='batched-leaf')
+        ctx.dist[f'roundtrip:batched-leading-dims={len(lead)}'] += 1
+        onpb = np.asarray(vi.interp_sigma_to_pressure(colb, pcoords, sigma, A(spb)))
+        exact_pb = ab_ + sb_ * (pcent[:, None, None] / spb)
+        ctx.expect(onpb.shape == exact_pb.shape and bool(np.isfinite(onpb).all()) and
+                   np.abs(onpb - exact_pb).max() <= 1e-9 * (np.abs(exact_pb).max() + 1),
+                   'sigma-to-pressure-affine-batched',
+                   'sigma->pressure not exact on affine columns of a leaf with leading batch dimensions', binp)
+        ctx.expect(onpb.shape == exact_pb.shape and bool(np.allclose(onpb[i0], onp, rtol=1e-12, atol=1e-12, equal_nan=True)),
+                   'sigma-to-pressure-per-slice',
+                   'sigma->pressure of a batch entry differs from regridding that entry alone', binp)
+        if onpb.shape != exact_pb.shape:
+          continue
+        backb = np.asarray(vi.interp_pressure_to_sigma({'f': exact_pb, 'sp': spb}, pcoords, sigma, A(spb))['f'])
+        ctx.expect(backb.shape == colb.shape, 'pressure-to-sigma-batched-shape',
+                   f'pressure->sigma of a leaf of shape {list(exact_pb.shape)} has shape {list(backb.shape)}', binp)
+        if backb.shape != colb.shape:
+          continue
+        qb = cen[:, None, None] * spb
+        inrb = (qb > lo_p + g) & (qb < hi_p - g)
+        outrb = (qb < lo_p - g) | (qb > hi_p + g)
+        ctx.expect(bool((np.abs(backb - colb)[inrb] <= 1e-10 * cond * (np.abs(colb).max() + 1)).all()),
+                   'pressure-to-sigma-affine-batched',
+                   'pressure->sigma does not reproduce affine columns (sigma centres within one cell of the pressure '
+                   'range) of a leaf with leading batch dimensions [..., level, x, y]',
+                   dict(binp, back=backb.tolist(), col=colb.tolist()))
+        ctx.expect(bool(np.isnan(backb[outrb]).all()), 'roundtrip-missing',
+                   'pressure->sigma of a batched leaf returns values beyond one cell of the pressure range', binp)
+        back0 = np.asarray(vi.interp_pressure_to_sigma(exact_pb[i0], pcoords, sigma, A(sp)))
+        ctx.expect(bool(np.allclose(backb[i0], back0, rtol=1e-12, atol=1e-12, equal_nan=True)), 'pressure-to-sigma-per-slice',
+                   'pressure->sigma of a batch entry differs from regridding that entry alone as a 3-D field',
+                   dict(binp, batched=backb[i0].tolist(), alone=back0.tolist()))
+      # hybrid -> sigma on a leaf with leading batch dimensions and a batch-dependent surface pressure [..., x, y]:
+      # columns affine in the hybrid sigma centres OF THEIR OWN surface pressure are reproduced at the target sigma
+      # centres within one end cell of the source range, and entry 0 equals regridding that entry alone
+      if ri == 0 or not ctx.quick:
+        nh = int(rng.choice([3, 6]))
+        pbh = np.concatenate([[0.0], np.cumsum(rng.uniform(0.5, 1.5, nh))])
+        pbh = pbh / pbh[-1] * 1000.0
+        bbh = np.linspace(0, 1, nh + 1) ** 2
+        abh = pbh - bbh * 1000.0
+        hyb = vi.HybridCoordinates(a_boundaries=abh, b_boundaries=bbh)
+        leadh = (2,) if 2 not in (nh, ns) else (4,)
+        sphb = rng.uniform(950.0, 1050.0, leadh + (X, Y))
+        srcb = np.moveaxis(np.array([hyb.get_sigma_centers(v) for v in sphb.ravel()]).reshape(leadh + (X, Y, nh)), -1, -3)
+        ahb, shb = rng.standard_normal((2,) + leadh + (1, X, Y))
+        fhb = ahb + shb * srcb
+        hinp = dict(sigma_boundaries=b.tolist(), a_boundaries=abh.tolist(), b_boundaries=bbh.tolist(),
+                    leaf_shape=list(fhb.shape), sp=sphb.ravel().tolist(), a=ahb.ravel().tolist(), s=shb.ravel().tolist())
+        ctx.case(('hybrid-batched', b.tobytes(), abh.tobytes(), sphb.tobytes()), nontrivial=True, branch='batched-leaf')
+        if (np.diff(srcb, axis=-3) > 0).all():
+          ohb = np.asarray(vi.interp_hybrid_to_sigma(fhb, hyb, sigma, A(sphb)))
+          ctx.expect(ohb.shape == leadh + (ns, X, Y), 'hybrid-to-sigma-batched-shape',
+                     f'hybrid->sigma of a leaf of shape {list(fhb.shape)} has shape {list(ohb.shape)}', hinp)
+          if ohb.shape == leadh + (ns, X, Y):
+            tq = np.broadcast_to(cen[:, None, None], ohb.shape)
+            lo_h = srcb[..., :1, :, :] - (srcb[..., 1:2, :, :] - srcb[..., :1, :, :])
+            hi_h = srcb[..., -1:, :, :] + (srcb[..., -1:, :, :] - srcb[..., -2:-1, :, :])
+            inh = (tq > lo_h + 1e-9) & (tq < hi_h - 1e-9)
+            outh_ = (tq < lo_h - 1e-9) | (tq > hi_h + 1e-9)
+            exh = ahb + shb * tq
+            condh = 1 + 1.0 / np.diff(srcb, axis=-3).min()
+            ctx.expect(bool((np.abs(ohb - exh)[inh] <= 1e-11 * condh * (np.abs(exh).max() + 1)).all()) and
+                       bool(np.isnan(ohb[outh_]).all()), 'hybrid-to-sigma-affine-batched',
+                       'hybrid->sigma does not reproduce affine columns within one end cell / is not NaN beyond, on a '
+                       'leaf with leading batch dimensions', dict(hinp, out=ohb.tolist()))
+            oh0 = np.asarray(vi.interp_hybrid_to_sigma(fhb[0], hyb, sigma, A(sphb[0])))
+            ctx.expect(bool(np.allclose(ohb[0], oh0, rtol=1e-12, atol=1e-12, equal_nan=True)), 'hybrid-to-sigma-per-slice',
+                       'hybrid->sigma of a batch entry differs from regridding that entry alone', hinp)
       # surface pressure: the interpolated relative height vanishes at the returned pressure
       npl = int(rng.choice([2, 3, 6, 12]))
       levels, _ = gen_nodes(rng, npl, 'pressure')
@@ -774,6 +915,69 @@ def run(ctx: common.Ctx):
         same = [int(v) for v in np.asarray(hi.NearestRegridder(gs, gs).indices)]
         ctx.expect(same == list(range(len(same))), 'nearest-self',
                    'nearest neighbour of a node of the same grid is not itself', inp)
+
+  # nearest regridding is a function of the two grids of the regridder ONLY -- not of the regridders used before in the
+  # process.  Two families of grids with the same node counts / latitude spacing that differ only in longitude_offset
+  # (plain, and rotated by a non-integer number of longitude cells), used one after the other, in both orders (family 1:
+  # plain->rotated first, then the equal pairs, then rotated->plain; family 2: the equal pairs first).  Every result is
+  # compared with a brute-force great-circle (haversine) argmin over all source nodes (ties within 1e-12 accepted), the
+  # equal pairs with the identity, and a freshly built second instance with the first.
+  def nearest_oracle_ok(gs, gt, field, out, idx):
+    lon_s, sl_s = gs.nodal_mesh
+    lon_t, sl_t = gt.nodal_mesh
+    hm = hav_matrix(np.arcsin(sl_t).ravel(), lon_t.ravel(), np.arcsin(sl_s).ravel(), lon_s.ravel())
+    best = hm.min(axis=1)
+    ok_idx = len(idx) == hm.shape[0] and all(0 <= i < hm.shape[1] and hm[t, i] <= best[t] + 1e-12
+                                             for t, i in enumerate(idx))
+    src, o = field.ravel(), out.ravel()
+    ok_val = o.shape[0] == hm.shape[0] and all(
+        bool((src[hm[t] <= best[t] + 1e-12] == o[t]).any()) for t in range(hm.shape[0]))
+    return ok_idx, ok_val, [int(v) for v in hm.argmin(axis=1)]
+
+  fam_table = [[(11, 5, 'gauss'), (9, 6, 'equiangular')], [(13, 4, 'gauss'), (11, 6, 'equiangular')],
+               [(11, 4, 'equiangular'), (13, 6, 'gauss')]][ctx.seed % 3]
+  for fi, (lo_n, la_n, spacing) in enumerate(fam_table):
+    cells = [1.25, 2.5, 0.75, 1.5][int(rng.integers(0, 4))]
+    plain = (lo_n, la_n, spacing, 0.0)
+    rot = (lo_n, la_n, spacing, cells * 2 * np.pi / lo_n)
+    order = ([(plain, rot), (plain, plain), (rot, rot), (rot, plain), (plain, rot)] if fi == 0 else
+             [(plain, plain), (rot, rot), (plain, rot), (rot, plain), (rot, rot)])
+    ctx.dist[f'nearest-offset-sequence:{"rotated-first" if fi == 0 else "equal-first"}'] += 1
+    for step, (ts, tt) in enumerate(order):
+      gs, gt = mkgrid(ts), mkgrid(tt)
+      inp = dict(source=list(ts), target=list(tt), offset_cells=cells, step=step,
+                 sequence=[[list(a), list(b)] for a, b in order[:step + 1]])
+      ctx.case(('nearest-offset-seq', ts, tt, step), nontrivial=True, branch='nearest-offset-sequence')
+      with ctx.impl('probe-exception', inp):
+        field = rng.permutation(gs.nodal_shape[0] * gs.nodal_shape[1]).astype(float).reshape(gs.nodal_shape)  # distinct
+        reg = hi.NearestRegridder(gs, gt)
+        out = np.asarray(reg(A(field)))
+        idx = [int(v) for v in np.asarray(reg.indices)]
+        ok_idx, ok_val, brute = nearest_oracle_ok(gs, gt, field, out, idx)
+        ctx.expect(out.shape == gt.nodal_shape and ok_idx, 'nearest-brute-force-indices',
+                   'NearestRegridder.indices is not a great-circle nearest source node of every target node (brute force '
+                   'over all source nodes) for a regridder used after other regridders of the same node counts',
+                   dict(inp, indices=idx, brute_force=brute))
+        ctx.expect(out.shape == gt.nodal_shape and ok_val, 'nearest-brute-force-values',
+                   'NearestRegridder(field) is not the field at a great-circle nearest source node (brute force) for a '
+                   'regridder used after other regridders of the same node counts',
+                   dict(inp, indices=idx, brute_force=brute, field=field.tolist(), out=out.tolist()))
+        if ts == tt:
+          ctx.expect(out.shape == field.shape and bool(np.array_equal(out, field)) and idx == list(range(len(idx))),
+                     'nearest-identity-after-offset',
+                     'nearest regridding between EQUAL grids is not the identity after a regridder between grids of the '
+                     'same node counts and another longitude offset was used', dict(inp, indices=idx))
+        else:
+          ctx.expect(not np.array_equal(out, field), 'nearest-offset-moves-nodes',
+                     'nearest regridding onto a grid rotated by a non-integer number of cells returned the input '
+                     'unchanged (distinct field values: it cannot be the nearest-node field)', dict(inp, indices=idx))
+        lead = rng.standard_normal((2,) + gs.nodal_shape)
+        out2 = np.asarray(hi.NearestRegridder(gs, gt)(A(lead)))      # a second, freshly built instance, batched field
+        ctx.expect(out2.shape == (2,) + gt.nodal_shape and
+                   all(nearest_oracle_ok(gs, gt, lead[k], out2[k], idx)[1] for k in range(2)),
+                   'nearest-brute-force-values',
+                   'a second NearestRegridder instance of the same grids (batched field) is not the nearest-node field',
+                   inp)
 
   # nearest-neighbour "identity between equal grids" on grids WITH pole rows (review C, C17 finding 2): outside the
   # theorem (latitudes strictly inside the poles), so it is a test on the real code, on every run, with fields that vary
